@@ -287,6 +287,11 @@ def _match(pat, v, env):
     if k == 'Expr':
         pat = pat.get('e', {})
         k = pat.get('k')
+    if k == 'Lit':
+        lit = pat.get('v')
+        if lit in ('true', 'false') and isinstance(v, bool):
+            return dict(env) if v == (lit == 'true') else None
+        raise Unk('literal pattern %s' % lit)
     name = _last(pat.get('def') or '')
     if k == 'TupleStruct' and name == 'Some':
         if isinstance(v, tuple) and v[0] == 'Some':
